@@ -7,6 +7,7 @@ import (
 	"os"
 	"os/exec"
 	"path/filepath"
+	"sort"
 	"strings"
 	"sync"
 	"time"
@@ -53,6 +54,17 @@ func (o *Obligation) query(withModel bool) string {
 	}
 	sb.WriteString("(check-sat)\n")
 	if withModel {
+		if len(o.Info) > 0 {
+			var ts []string
+			for _, k := range sortedKeys(o.Info) {
+				if k != "replay" {
+					ts = append(ts, o.Info[k])
+				}
+			}
+			if len(ts) > 0 {
+				sb.WriteString("(get-value (" + strings.Join(ts, " ") + "))\n")
+			}
+		}
 		sb.WriteString("(get-model)\n")
 	}
 	return sb.String()
@@ -201,4 +213,45 @@ func modelValue(model, name string) (string, bool) {
 		line = "-" + strings.TrimSuffix(strings.TrimPrefix(line, "(- "), ")")
 	}
 	return line, true
+}
+
+func sortedKeys(m map[string]string) []string {
+	var ks []string
+	for k := range m {
+		ks = append(ks, k)
+	}
+	sort.Strings(ks)
+	return ks
+}
+
+// infoValues parses the (get-value ...) answer that precedes the model.
+func (o *Obligation) infoValues() map[string]int64 {
+	out := map[string]int64{}
+	text := o.Model
+	i := strings.Index(text, "((")
+	if i < 0 {
+		return out
+	}
+	for _, k := range sortedKeys(o.Info) {
+		if k == "replay" {
+			continue
+		}
+		term := o.Info[k]
+		key := "(" + term + " "
+		j := strings.Index(text, key)
+		if j < 0 {
+			continue
+		}
+		rest := text[j+len(key):]
+		rest = strings.TrimSpace(rest)
+		var v int64
+		if strings.HasPrefix(rest, "(- ") {
+			fmt.Sscanf(rest[3:], "%d", &v)
+			v = -v
+		} else {
+			fmt.Sscanf(rest, "%d", &v)
+		}
+		out[k] = v
+	}
+	return out
 }
